@@ -6,7 +6,7 @@
 //	<id> MX <pattern> <4^9 chars>           RelateMatches(matrix_k, pattern) for ALL 4^9 matrices, k in
 //	                                         base-4 order (digit 0..3 = F,0,1,2; first entry most significant)
 //	<id> MS <hex mat> <hex pat> <r>         RelateMatches on arbitrary byte strings (r = 1 | 0 | e)
-//	<id> PR <class> <A> <B> <relAB> <relBA> <predsAB> <predsBA> <validA><validB> <rel0> <preds0>
+//	<id> PR <class> <A> <B> <relAB> <relBA> <predsAB> <predsBA> <validA><validB> <rel0> <preds0> <overlay> <scaleExp> <Intersects(a,b)Intersects(b,a)>
 //	                                         a generated ordered pair: geometries in the exact rational dump
 //	                                         (see dumpGeom), Relate both ways, the nine predicates both ways
 //	                                         in the order Equals Disjoint Touches Contains Covers Within
@@ -739,6 +739,11 @@ func main() {
 			gb.pool = nil
 			B = gb.geometry(kb, 0)
 		}
+		if i%16 == 15 {
+			A, B = multiNested(r)
+			A0, B0, hasBase = geom.Geometry{}, geom.Geometry{}, false
+			class = "multi_nested"
+		}
 		if r.Chance(1, 2) {
 			A, B = B, A
 			A0, B0 = B0, A0
@@ -803,8 +808,8 @@ func main() {
 		if va == 1 && vb == 1 {
 			ov = overlayDump(A, B)
 		}
-		fmt.Fprintf(w, "%d\tPR\t%s\t%s\t%s\t%s\t%s\t%s\t%s\t%d%d\t%s\t%s\t%d\n", next(), class, dump(AL), dump(BL),
-			relate(A, B), relate(B, A), preds(A, B), preds(B, A), va, vb, base, ov, scaleExp)
+		fmt.Fprintf(w, "%d\tPR\t%s\t%s\t%s\t%s\t%s\t%s\t%s\t%d%d\t%s\t%s\t%d\t%s\n", next(), class, dump(AL), dump(BL),
+			relate(A, B), relate(B, A), preds(A, B), preds(B, A), va, vb, base, ov, scaleExp, intersectsObs(A, B))
 	}
 	js, _ := json.Marshal(map[string]interface{}{"classes": classes, "type_pairs": kinds, "grid_side": grids,
 		"affine_moved_pairs": xformed, "pow2_rescaled_pairs": pow2Scaled, "overlays_dumped_through_hook": overlaysDumped, "matcher_patterns": len(patterns), "matcher_matrices": total, "matcher_strings": nStr})
